@@ -6,6 +6,8 @@ import OrsoVerif.Lemmas.CacheSeq
 import OrsoVerif.Lemmas.CacheRefine
 import OrsoVerif.Lemmas.CacheGen
 import OrsoVerif.Lemmas.CacheGenEq
+import OrsoVerif.Lemmas.CacheKey
+import OrsoVerif.Generated.CacheKey
 /-!
 # C19 — Memoised functions return only results computed for the same arguments
 
@@ -42,6 +44,58 @@ theorem decorator_glue_extracted :
     Gen.Cache.singleGlue = ["guard:func is None", "forward:valid_for_seconds", "cache:per-function", "init:no-entry", "return:wrapper"] ∧
     Gen.Cache.lruGlue = ["guard:func is None", "forward:max_size", "forward:valid_for_seconds", "cache:per-function", "lock:per-function", "init:no-entry", "return:wrapper"] := by
   decide
+
+/-! ## The dictionary key of the LRU wrapper as GENERATED from the working tree (`Gen.CacheKey.keyOf`, harness/extractors/c19_key.py)
+
+A call is its positional values and its keyword `(name, value)` pairs in call order; "equal keyword arguments" is equality
+as dictionaries (`List.Perm`).  Tuples are `PyVal.list`, the primitives are those of `Model/CacheKey.lean`. -/
+
+/-- Clause "a value that the wrapped function produced for EQUAL POSITIONAL AND KEYWORD arguments", LRU cache: the key the
+working tree builds from a call's arguments (`Gen.CacheKey.keyOf`, translated from the source expression on every run)
+is injective - two calls with the same key have the same positional arguments and the same keyword arguments.  So an
+entry found under a call's key (the model's `K`) was stored by a call with equal arguments: the positional part cannot be
+mistaken for the keyword part, a nested tuple not for flat arguments, an empty `kwargs` not for anything else. -/
+theorem key_injective (a1 a2 : List PyVal) (k1 k2 : List (String × PyVal)) :
+    Gen.CacheKey.keyOf a1 k1 = Gen.CacheKey.keyOf a2 k2 → a1 = a2 ∧ k1.Perm k2 := by
+  intro h
+  simp only [Gen.CacheKey.keyOf, CacheKey.tuple_inj, CacheKey.frozenset_inj, List.cons.injEq, and_true] at h
+  exact ⟨h.1, CacheKey.perm_of_sorted_items_eq h.2⟩
+
+/-- The look-alike calls of the generators get DIFFERENT keys from the working tree's key expression: `f(limit=10)`,
+`f(("limit", 10))`, `f((("limit", 10),))`; `f(1, x=2)` and `f(1, ("x", 2))`; `f((1, 2))` and `f(1, 2)`; `f()` and `f(())`. -/
+theorem key_separates_lookalikes :
+    Gen.CacheKey.keyOf [] [("limit", .int 10)] ≠ Gen.CacheKey.keyOf [.list [.str "limit", .int 10]] [] ∧
+    Gen.CacheKey.keyOf [] [("limit", .int 10)] ≠ Gen.CacheKey.keyOf [.list [.list [.str "limit", .int 10]]] [] ∧
+    Gen.CacheKey.keyOf [.int 1] [("x", .int 2)] ≠ Gen.CacheKey.keyOf [.int 1, .list [.str "x", .int 2]] [] ∧
+    Gen.CacheKey.keyOf [.list [.int 1, .int 2]] [] ≠ Gen.CacheKey.keyOf [.int 1, .int 2] [] ∧
+    Gen.CacheKey.keyOf [] [] ≠ Gen.CacheKey.keyOf [.list []] [] := by
+  refine ⟨?_, ?_, ?_, ?_, ?_⟩ <;> intro h <;> have := key_injective _ _ _ _ h <;> simp at this
+
+/-- The flat key without a separator between the positional and the keyword part
+(`args + tuple(sorted(kwargs.items())) if kwargs else args`, seeded change C19-w8s1) is NOT injective: `f(("limit", 10))`
+and `f(limit=10)`, and `f(1, ("x", 2))` and `f(1, x=2)`, are different calls with one key. -/
+theorem flat_key_confuses_positional_with_keyword :
+    CacheKey.flatKey [.list [.str "limit", .int 10]] [] = CacheKey.flatKey [] [("limit", .int 10)] ∧
+    CacheKey.flatKey [.int 1, .list [.str "x", .int 2]] [] = CacheKey.flatKey [.int 1] [("x", .int 2)] ∧
+    ¬ (∀ a1 a2 k1 k2, CacheKey.flatKey a1 k1 = CacheKey.flatKey a2 k2 → a1 = a2 ∧ k1.Perm k2) := by
+  refine ⟨rfl, rfl, ?_⟩
+  intro h
+  have := (h [.list [.str "limit", .int 10]] [] [] [("limit", .int 10)] rfl).1
+  simp at this
+
+/-- The key with the keyword ORDER in it (`(args, tuple(kwargs.items()))`, hand mutation N7) is injective but not a
+function of the arguments as the property means them: `f(x=1, y=2)` and `f(y=2, x=1)` have equal keyword arguments and
+different keys (the wrapped function is invoked although an entry for equal arguments is held); the working tree's key
+gives them one key. -/
+theorem ordered_key_separates_equal_keywords :
+    CacheKey.orderedKey [] [("x", .int 1), ("y", .int 2)] ≠ CacheKey.orderedKey [] [("y", .int 2), ("x", .int 1)] ∧
+    Gen.CacheKey.keyOf [] [("x", .int 1), ("y", .int 2)] = Gen.CacheKey.keyOf [] [("y", .int 2), ("x", .int 1)] := by
+  constructor
+  · intro h
+    simp only [CacheKey.orderedKey, CacheKey.tuple_inj, List.cons.injEq, and_true, true_and] at h
+    have := CacheKey.items_inj h
+    simp at this
+  · decide
 
 /-! ## The wrapper bodies as GENERATED from the working tree (`Gen.CacheFns`, harness/extractors/c19_fns.py)
 
